@@ -95,6 +95,12 @@ def gen_case(rng, i, tier):
         if mode == "parallelized":
             chunks[core] = [sizes[core]]
         desc["mw_base"] = None
+        # a second core dimension (two dummy axes in one argument), in whatever order the data happens to store them
+        others = [b for b in axn if b != a and cm[b][pos[b]] in dims and pos[b] in ("center", "left", "right")]
+        if others and rng.random() < 0.5 and pos[a] in ("center", "left", "right") and to[a] in ("center", "left", "right"):
+            desc["second_core"] = others[0]
+            if mode == "parallelized":
+                chunks[cm[others[0]][pos[others[0]]]] = [sizes[cm[others[0]][pos[others[0]]]]]
     if op == "mw":
         desc["mw_base"] = rng.choice(["diff", "interp"])
     desc["chunks"] = chunks
@@ -161,6 +167,26 @@ def setup_simple(desc):
         bw = {"lon": widths[(frm, t_)]}
         sig = f"(lon:{frm})->(lon:{t_})"
         mode = desc["dask_mode"]
+
+        b2 = desc.get("second_core")
+        if b2:
+            # signature (P:frm, Q:pos_b) -> (P:to, Q:pos_b): P padded and differenced on the second-to-last axis
+            bw = {"lon": widths[(frm, t_)]}
+            sig = f"(lon:{frm},k2:{desc['pos'][b2]})->(lon:{t_},k2:{desc['pos'][b2]})"
+            core_dims = core_dims + [cm[b2][desc["pos"][b2]]]
+
+            def user(x):
+                return x[..., 1:, :] * 2 - x[..., :-1, :]
+
+            def fn(x, lazy=None):
+                kw = {}
+                if x.chunks is not None:
+                    kw["dask"] = "parallelized" if mode == "parallelized" else "allowed"
+                    if mode == "allowed-map_overlap":
+                        kw["map_overlap"] = True
+                return g.apply_as_grid_ufunc(user, x, axis=[(a, b2)], signature=sig, boundary_width=bw, **call, **kw)
+
+            return ds, g, da, fn, core_dims, involved
 
         def user(x):
             return x[..., 1:] * 2 - x[..., :-1]
@@ -243,7 +269,7 @@ def run_case(ctx, desc):
         shifts = [("center", desc["to"])] if not desc["vector"] else [(desc["to"], "center")]
     else:
         ds, g, data, fn, core_dims, involved = setup_simple(desc)
-        opname = ("vector-" if desc.get("vector_form") and desc["op"] in ("diff", "interp", "min", "max") and len(desc["opax"]) == 1 else "") + desc["op"] + (":" + desc["dask_mode"] if desc["op"] == "ufunc" else "") + (":" + desc["mw_base"] if desc["op"] == "mw" else "")
+        opname = ("2core-" if desc.get("second_core") else "") + ("vector-" if desc.get("vector_form") and desc["op"] in ("diff", "interp", "min", "max") and len(desc["opax"]) == 1 else "") + desc["op"] + (":" + desc["dask_mode"] if desc["op"] == "ufunc" else "") + (":" + desc["mw_base"] if desc["op"] == "mw" else "")
         shifts = [(desc["pos"][a], desc["to"][a]) for a in desc["opax"]]
     # inputs may carry a (dask-backed) non-index coordinate whose chunking has nothing to do with the data's
     lc = desc.get("lazy_coord")
